@@ -27,6 +27,7 @@ Inductive err :=
 | ECtx                (* context.Canceled *)
 | EUnexpected         (* uripost: errors.New("unexpected behavior") *)
 | EPanic              (* index out of range / integer divide by zero *)
+| ENoAmmoText         (* grpc/json: errors.New("no ammo in file"), not the decoders sentinel *)
 | ELoad (e : err).    (* fmt.Errorf("cant LoadAmmo, err: %w", e) *)
 
 Inductive outcome := Ok | Failed (e : err) | OutOfFuel.
@@ -188,29 +189,38 @@ Definition dec_step (k : dkind) : bool -> nat -> nat -> list entry -> dstate -> 
 (* components/providers/http/provider/provider.go *)
 
 Inductive hstate :=
-| HStream (d : dstate)                          (* runFullScan *)
+| HStream (d : dstate) (dl : nat)               (* runFullScan, dl = delivered *)
 | HLoad (d : dstate) (acc : list entry)         (* loadAmmo -> Decoder.LoadAmmo *)
 | HPre (ammos : list entry) (a : nat).          (* runPreloaded, a = ammoNum *)
 
 Definition is_limit_err (e : err) : bool :=
   match e with EAmmoLimit | EPassLimit => true | _ => false end.
 
-(* what Provider.Run hands back for the error of runFullScan / runPreloaded *)
-Definition fullscan_result (e : err) : outcome := if is_limit_err e then Ok else Failed e.
+(* what Provider.Run hands back for the error of runFullScan / runPreloaded.
+   runFullScan: the sentinels become nil — or ErrNoAmmo when nothing was delivered (the
+   ChosenCases filter matched nothing in all passes) *)
+Definition fullscan_result (dl : nat) (e : err) : outcome :=
+  if is_limit_err e then (if dl =? 0 then Failed ENoAmmo else Ok) else Failed e.
 Definition preloaded_result (e : err) : outcome := if is_limit_err e then Ok else Failed e.
 
 Definition http_step (k : dkind) (cf : cfg) (es : list entry) (c : bool) (s : hstate) : sres hstate :=
   match s with
-  | HStream d =>
+  | HStream d dl =>
       if negb (inloop d) && c then Stop (Failed ECtx) true          (* ctx.Err() at the loop top *)
+      else if negb (inloop d) && nz (limit cf) && (limit cf <=? dl)
+      then Stop Ok true                          (* `if p.Limit != 0 && delivered >= p.Limit { return nil }` *)
       else
-        match dec_step k c (limit cf) (passes cf) es d with
-        | DAgain d' => Cont (HStream d')
-        | DErr e => Stop (fullscan_result e) true
+        (* the decoder is built with Limit = 0 (http.NewProvider): Limit counts delivered ammo *)
+        match dec_step k c 0 (passes cf) es d with
+        | DAgain d' => Cont (HStream d' dl)
+        | DErr e => Stop (fullscan_result dl e) true
         | DAmmo e d' =>
-            if negb (is_chosen (e_tag e) (chosen cf)) then Cont (HStream d')   (* continue *)
+            if negb (is_chosen (e_tag e) (chosen cf)) then
+              (* nothing delivered and the decoder has been through the whole file: ErrNoAmmo *)
+              if (dl =? 0) && (1 <=? passNum d') then Stop (Failed ENoAmmo) true
+              else Cont (HStream d' dl)                             (* continue *)
             else if c then Stop (Failed ECtx) true                  (* select: <-ctx.Done() *)
-            else Emit e (HStream d')                                (* select: p.Sink <- ammo *)
+            else Emit e (HStream d' (S dl))                         (* select: p.Sink <- ammo; delivered++ *)
         end
   | HLoad d acc =>
       (* protoDecoder.LoadAmmo: Passes = 1, Limit = 0, scan until an error *)
@@ -243,7 +253,7 @@ Definition http_step (k : dkind) (cf : cfg) (es : list entry) (c : bool) (s : hs
   end.
 
 Definition http_init (preload : bool) : hstate :=
-  if preload then HLoad dinit [] else HStream dinit.
+  if preload then HLoad dinit [] else HStream dinit 0.
 
 Definition http_run (k : dkind) (preload : bool) (cf : cfg) (es : list entry)
            (cancel : option nat) (fuel : nat) : result :=
@@ -277,10 +287,12 @@ Definition scen_run (cf : cfg) (es : list entry) (cancel : option nat) (fuel : n
 Record gstate := { g_ammo : nat; g_pass : nat; g_pos : nat; g_inner : bool }.
 Definition ginit : gstate := {| g_ammo := 0; g_pass := 0; g_pos := 0; g_inner := false |}.
 
-(* after the inner loop: scanner.Err(); `if p.Limit != 0 && ammoNum >= p.Limit { break }`;
+(* after the inner loop: scanner.Err(); `if ammoNum == 0 { return errors.New("no ammo in file") }`;
+   `if p.Limit != 0 && ammoNum >= p.Limit { break }`;
    `if p.Passes != 0 && passNum >= p.Passes { break }`; Seek *)
 Definition g_after (cf : cfg) (g : gstate) : sres gstate :=
-  if nz (limit cf) && (limit cf <=? g_ammo g) then Stop Ok true
+  if g_ammo g =? 0 then Stop (Failed ENoAmmoText) true     (* a whole pass delivered nothing *)
+  else if nz (limit cf) && (limit cf <=? g_ammo g) then Stop Ok true
   else if nz (passes cf) && (passes cf <=? g_pass g) then Stop Ok true
   else Cont {| g_ammo := g_ammo g; g_pass := g_pass g; g_pos := 0; g_inner := false |}.
 
@@ -323,7 +335,8 @@ Definition decode_step (cf : cfg) (es : list entry) (c : bool) (p : pstate) : sr
         if passes cf =? 1 then Stop Ok true                        (* NewMultiPassReader returns r itself *)
         else
           let k := S (p_passes p) in                               (* r.passesCount++ *)
-          if (passes cf =? 0) || (k <? passes cf)
+          if p_pos p =? 0 then Stop Ok true                        (* !readInPass: io.EOF, "Ammo finished" *)
+          else if (passes cf =? 0) || (k <? passes cf)
           then Cont {| p_ammo := p_ammo p; p_passes := k; p_pos := 0 |}   (* Seek(0); Read returns (0, nil) *)
           else Stop Ok true                                        (* io.EOF reaches the decoder: "Ammo finished" *)
     end.
